@@ -158,6 +158,15 @@ def corner_ops(rng, spec, guarded):
                   "value": {"m": sv["compute"]["m"] * 2, "u": sv["compute"]["u"]}}
             ops.append({"op": "group", "changes": rng.choice([[c1, c2], [c2, c1]]), "kind": "jobs"})
             break
+    # the steps of a journey in another order (same members: only the order of the list changes)
+    for p in spec["system"]["usage_patterns"]:
+        ujn = spec["patterns"][p]["usage_journey"]
+        steps_ = spec["journeys"][ujn]["uj_steps"]
+        if len(steps_) >= 2:
+            perm = list(reversed(steps_)) if rng.random() < 0.5 else steps_[1:] + steps_[:1]
+            if perm != steps_:
+                ops.append({"op": "setlist", "kind": "journeys", "name": ujn, "attr": "uj_steps", "items": perm})
+                break
     if not ops:
         return None
     op = rng.choice(ops)
@@ -538,9 +547,14 @@ def fixed_point_shard(args):
         spec = specgen.gen_safe_spec(rng, realsys.unit_info, **genkw)
         try:
             with watchdog(60):
+                if i % 2 == 1 and history.has_shared_job(spec):
+                    spec = specgen.unshare_jobs(spec)
                 live = Live(spec)
-                for _ in range(rng.randint(0, 3)):
-                    op = gen_op(rng, live.spec, True)
+                for k_ in range(rng.randint(0, 3)):
+                    # in every other case the history starts with an edit aimed at a corner (reordered steps, …)
+                    op = corner_ops(rng, live.spec, True) if (i % 2 == 1 and k_ == 0) else None
+                    if op is None:
+                        op = gen_op(rng, live.spec, True)
                     if op and safe_after(live, op):
                         if live.apply(op)[0] == "err":
                             break
